@@ -15,6 +15,7 @@ pub const KINDS: &[&str] = &[
     "ext",
     "ext_client",
     "ext_server",
+    "ext_tag",
     "sct",
     "sct_list",
     "dh",
@@ -312,7 +313,7 @@ pub fn structure(rng: &mut Rng, kind: &str) -> Vec<u8> {
         "dtls_record" => dtls_record(rng),
         "hs" => enc::tls_message(&gen::any_handshake(rng, 150)),
         "dhs" => dtls_handshake_msg(rng),
-        "ext" | "ext_client" | "ext_server" => extension(rng),
+        "ext" | "ext_client" | "ext_server" | "ext_tag" => extension(rng),
         "sct" => sct_entry(rng),
         "sct_list" => sct_list(rng),
         "dh" => dh_params(rng),
@@ -333,7 +334,7 @@ pub fn declared_extent(kind: &str, b: &[u8]) -> Option<usize> {
         "dtls_record" => be16(11).map(|l| if l > 16640 { 13 } else { 13 + l }),
         "hs" => be24(1).map(|l| 4 + l),
         "dhs" => be24(9).map(|l| 12 + l),
-        "ext" | "ext_client" | "ext_server" => be16(2).map(|l| 4 + l),
+        "ext" | "ext_client" | "ext_server" | "ext_tag" => be16(2).map(|l| 4 + l),
         "sct" | "sct_list" | "dsig_old" => be16(0).map(|l| 2 + l),
         "dsig" => be16(2).map(|l| 4 + l),
         "dh" => {
